@@ -209,6 +209,29 @@ def run(ctx):
     vcheck("default-shard-in-range", POOL_VALIDATE, "default_shard < number of shards", fields=["default_shard", "shards"])
     vcheck("sharding-key-qualified", POOL_VALIDATE, "automatic_sharding_key must be table.column", fields=["automatic_sharding_key"], consts=[2])
     vcheck("pool-timeouts>0", POOL_VALIDATE, "pool-level connect/idle timeouts and server_lifetime must not be 0", fields=["connect_timeout", "idle_timeout", "server_lifetime"])
+    # ... of the pool's own values, whatever its users say: the mirror pools (mirrors::MirroredClient::create_pool) are built from the pool section alone, a
+    # pool-level 0 that every user overrides still reaches bb8 there. The refusal must not hinge on a user's setting (`user.x.or(self.x)`)
+    pvb_ = F.body(POOL_VALIDATE)
+    r_pt = has_validator(rets.get(POOL_VALIDATE), fields=["connect_timeout", "idle_timeout", "server_lifetime"]) if pvb_ is not None else None
+    if r_pt is not None:
+        mixed = set()
+        level = [sb for sb, _ in pvb_.direct_control_deps(r_pt["block"])]
+        seen_sb = set(level)
+        for _ in range(3):
+            nxt = []
+            for sb in level:
+                for o in origins(pvb_, pvb_.blocks[sb]["term"]["op"], taint=True):
+                    if o.kind in ("place", "param") and isinstance(o.what, int) and o.what < len(pvb_.locals) and "config::User" in pvb_.locals[o.what]["ty"]:
+                        mixed |= {p_[1:] for p_ in o.proj if isinstance(p_, str) and p_.startswith(".") and not p_[1:].isdigit()} or {"(user)"}
+                for sb2, _t in pvb_.direct_control_deps(sb):
+                    if sb2 not in seen_sb and not any(o.kind == "call" and re.search(r"Iterator>::next$|Try>::branch$", o.call.name) for o in origins(pvb_, pvb_.blocks[sb2]["term"]["op"])):
+                        seen_sb.add(sb2)
+                        nxt.append(sb2)
+            level = nxt
+        mixed &= {"connect_timeout", "idle_timeout", "server_lifetime", "(user)"}
+        rv.check(not mixed, "validator:pool-timeouts>0:of-the-pool-alone", "the refusal of a pool-level timeout of 0 depends on the pool's own value only",
+                 "the refusal of a pool-level timeout of 0 also depends on the users' settings (User.%s): a pool-level `connect_timeout = 0` / `idle_timeout = 0` that every user overrides is accepted - and the mirror pools, "
+                 "built from the pool section alone, hand it to bb8, whose builder panics in the detached mirror task: the shard's mirror never receives anything and nothing is reported" % sorted(mixed))
     vcheck("servers-non-empty", SHARD_VALIDATE, "a shard needs servers", fields=["servers"], callee_pats=["re:Vec.*::is_empty$"])
     vcheck("one-primary", SHARD_VALIDATE, "at most one primary per shard", consts=[1])
     vcheck("no-duplicate-servers", SHARD_VALIDATE, "no duplicate servers in a shard", fields=["servers"], callee_pats=["re:HashSet.*::len$", "re:Vec.*::len$"])
@@ -546,3 +569,14 @@ def run(ctx):
     rs.check(len(dif) >= 8, "definition-identity", "%d structs / enums take part in the `did the definition change` comparisons" % len(dif), "only %d definition structs found" % len(dif))
     for key_, ok_, okm_, fm_ in dif:
         rs.check(ok_, "definition-identity:" + key_, okm_, fm_ + " - each shard, role and user of the accepted file can be addressed only in pools built from that file")
+    # what the file says for a user is what that user's pool is built with: the per-user settings that repeat a pool-level one (pool_mode, connect_timeout,
+    # idle_timeout, server_lifetime) are applied with the same precedence everywhere a pool-level value flows into a pool (user first, pool as fallback)
+    from common import user_override_findings
+    uof = user_override_findings(F)
+    if uof is None:
+        rs.missing("from_config / config::User / config::Pool")
+    else:
+        rs.check(len(uof) >= 4, "user-overrides", "%d per-user settings repeat a pool-level one (%s)" % (len(uof), ", ".join(x[0] for x in uof)), "per-user overrides not found")
+        for n_, ok_, sinks_, bad_ in uof:
+            rs.check(ok_, "user-override-applied:" + n_, "wherever Pool.%s flows into what a pool is built with, User.%s does too (%d sink(s))" % (n_, n_, len(sinks_)),
+                     "Pool.%s reaches %s without User.%s: a user's own `%s` is ignored there, the pool serves that user with the section's value" % (n_, bad_ or "nothing", n_, n_))
